@@ -23,6 +23,7 @@ import (
 	"encoding/binary"
 	"encoding/hex"
 	"fmt"
+	"io"
 	"os"
 	"os/exec"
 	"regexp"
@@ -37,6 +38,7 @@ import (
 	"github.com/IBM/sarama"
 	"github.com/spf13/viper"
 	"go.uber.org/zap"
+	"go.uber.org/zap/zapcore"
 
 	"github.com/linkedin/Burrow/core/protocol"
 )
@@ -187,16 +189,21 @@ type vwEnv struct {
 // module builds (once per configuration) a consumer module called `name` that reads for cluster `cluster`, the way
 // fixtureModule() + Configure do.  The two names are different strings in most cases.  mode "S": every key is put with
 // viper.Set; mode "T": the whole configuration is a TOML document read with viper.ReadConfig (what Burrow does with its
-// configuration file; viper.IsSet and friends see the two differently).
+// configuration file; viper.IsSet and friends see the two differently).  A "Z" after the letter gives the module a real zap
+// core (JSON encoder, info level, output discarded) instead of the nop logger: with a real core logger.With(...) encodes
+// its fields eagerly, which is part of what processing a message allocates in production.
 func (e *vwEnv) module(name, cluster, mode string, allow, deny int) *KafkaClient {
 	k := vwModKey{name, cluster, mode, allow, deny}
 	if m, ok := e.modules[k]; ok {
 		return m
 	}
 	module := &KafkaClient{Log: zap.NewNop()}
+	if strings.HasSuffix(mode, "Z") {
+		module.Log = zap.New(zapcore.NewCore(zapcore.NewJSONEncoder(zap.NewProductionEncoderConfig()), zapcore.AddSync(io.Discard), zap.InfoLevel))
+	}
 	module.App = &protocol.ApplicationContext{StorageChannel: e.ch}
 	viper.Reset()
-	if mode == "T" {
+	if strings.HasPrefix(mode, "T") {
 		var doc strings.Builder
 		fmt.Fprintf(&doc, "[cluster.%s]\nclass-name=\"kafka\"\nservers=[ \"broker1.example.com:1234\" ]\n\n", cluster)
 		fmt.Fprintf(&doc, "[consumer.%s]\nclass-name=\"kafka\"\nservers=[ \"broker1.example.com:1234\" ]\ncluster=\"%s\"\n", name, cluster)
